@@ -116,8 +116,24 @@ async def charset_switch(chk, rng, count):
         srv = mkserver([s])
         a = Peer(srv)
         await a.login(caps=caps, charset=CHARSETS[first][0])
-        # the effect of `SET NAMES <second>` (C14 / C15 check that statement itself): the session variable changes
-        s.variables.set("character_set_client", second)
+        how = rng.choice(["variable", "change-user"])      # (the SET NAMES statement itself is C14 / C15's subject; this session records raw queries)
+        if how == "variable":
+            # the effect of `SET NAMES <second>` (C14 / C15 check that statement itself): the session variable changes
+            s.variables.set("character_set_client", second)
+        elif how == "set-names":
+            await a.cmd(com_query(b"SET NAMES " + second.encode(), caps=caps))
+        else:
+            # COM_CHANGE_USER carries a collation: its character set is in force for everything after it
+            from lib import com_change_user
+            await a.cmd(com_change_user(b"u2", b"", b"db", charset=CHARSETS[second][0], caps=caps), n=30)
+        after = rng.choice([None, None, "reset-connection", "ping", "stmt-reset"])
+        if after == "reset-connection":
+            await a.cmd(b"\x1f", n=20)            # not an event that changes the client character set
+        elif after == "ping":
+            await a.cmd(b"\x0e", n=20)
+        elif after == "stmt-reset":
+            o0 = await a.cmd(b"\x16select 1")
+            await a.cmd(b"\x1a" + o0[0][1][1:5], n=20)
         _, codec, text = CHARSETS[second]
         name, value = text, text[::-1]
         attrs = [(253, False, value.encode(codec), name.encode(codec)), (3, False, 7, "n".encode(codec))]
@@ -132,9 +148,9 @@ async def charset_switch(chk, rng, count):
             out = await a.cmd(com_stmt_execute(sid, [(3, False, 1, b"")], caps=caps, attrs=attrs), n=30)
         got = [l for l in s.log[before:] if l[0] == "hq"]
         await a.finish()
-        desc = dict(handshake_charset=first, switched_to=second, command=kind, attribute_name=name, attribute_value=value)
+        desc = dict(handshake_charset=first, switched_to=second, switched_by=how, then=after, command=kind, attribute_name=name, attribute_value=value)
         chk.count("charset-switch:%s->%s" % (first, second))
-        chk.case(("switch", first, second, kind))
+        chk.case(("switch", first, second, kind, how, after))
         if len(got) != 1:
             chk.fail("command with attributes in the switched character set did not reach the application", desc, dict(reply=[p[:60] for _, p in out][:1]))
         elif got[0][2] != {name: value, "n": 7}:
